@@ -819,39 +819,47 @@ def _fire_loops(func):
     return out
 
 
+def _core_and_machine_functions(nm):
+    """(label, function, name of the variable holding the core) for every _Core method and every function nested in makeMachine."""
+    out = []
+    core = nm.find("_Core")
+    if isinstance(core, ast.ClassDef):
+        for n in core.body:
+            if isinstance(n, ast.FunctionDef) and n.args.args:
+                out.append((f"_Core.{n.name}", n, n.args.args[0].arg))
+    mk = nm.find("makeMachine")
+    if isinstance(mk, ast.FunctionDef):
+        for n in ast.walk(mk):
+            if isinstance(n, ast.FunctionDef) and n is not mk and len(n.args.args) > 1:
+                out.append((f"makeMachine.{n.name}", n, n.args.args[1].arg))
+    return out
+
+
 def check_swap_structure(ctx, m, ex):
+    """In every function (of _Core or of makeMachine, private helpers inlined) that fires Deferreds, each waiter list of the core it
+    reads is replaced on every path before the firing loop."""
     nm = _norm_cs(ctx)
     lists = _waiter_attrs(ctx)
-    targets = [("_Core.unawait", nm.find("_Core.unawait")), ("_Core.finishStopping", nm.find("_Core.finishStopping"))]
-    if m is not None and ex is not None:
-        mk = nm.find("makeMachine")
-        for t in m.trans.values():
-            if t["body"] is not None and t["inp"] in ex.eb and t["src"] == ex.att_state and mk is not None:
-                fn = next((n for n in ast.walk(mk) if isinstance(n, ast.FunctionDef) and n.name == t["body"].name), None) or nm.find(t["body"].name)
-                targets.append((f"makeMachine.{t['body'].name}", fn))
-    for label, f in targets:
-        q = "twisted.application._client_service." + label
-        if not isinstance(f, ast.FunctionDef):
-            ctx.note(f"waiters/list-swapped-before-firing: {label} not found in the normalised module; clause left to waiters/swap-order-run")
-            continue
+    seen = 0
+    for label, f, recv in _core_and_machine_functions(nm):
         loops = _fire_loops(f)
         if not loops:
-            ctx.note(f"waiters/list-swapped-before-firing: no loop firing Deferreds recognised in {label}; clause left to waiters/swap-order-run")
             continue
+        q = "twisted.application._client_service." + label
         g = ctx.cfg(f)
-        recv = f.args.args[0].arg if label.startswith("_Core") else (f.args.args[1].arg if len(f.args.args) > 1 else None)
 
         def is_list(n, recv=recv):
             return isinstance(n, ast.Attribute) and n.attr in lists and isinstance(n.value, ast.Name) and n.value.id == recv
+        read = {n.attr for n in ast.walk(f) if is_list(n) and isinstance(n.ctx, ast.Load)}
+        if not read:
+            continue   # fires Deferreds handed to it, owns no list
+        seen += 1
         for lp in loops:
             head = g.ids_of(lp)[0]
             if is_list(lp.iter):
                 ctx.violation("waiters/list-swapped-before-firing", q + f" | fires over self.{lp.iter.attr}",
                               "the Deferreds are fired while iterating the live waiter list: a callback that re-enters the service sees (and can re-fire) them")
                 continue
-            read = {n.attr for n in ast.walk(f) if is_list(n) and isinstance(n.ctx, ast.Load)}
-            if not read:
-                ctx.note(f"waiters/list-swapped-before-firing: {label} fires Deferreds that do not come from a waiter list of the core; nothing to detach")
             for attr in sorted(read):
                 stores = g.ids(lambda n, attr=attr: n.kind == "stmt" and isinstance(n.ast, (ast.Assign, ast.AnnAssign)) and
                                any(is_list(x) and x.attr == attr and isinstance(x.ctx, ast.Store)
@@ -860,6 +868,8 @@ def check_swap_structure(ctx, m, ex):
                 ctx.check(bool(stores) and w is None, "waiters/list-swapped-before-firing", q + f" | {attr} detached before firing",
                           f"{attr} is not replaced before the first waiter is fired: it still holds the Deferreds being fired while their callbacks run "
                           "(a re-entrant call fires them twice)", witness=g.describe(w))
+    if seen == 0:
+        ctx.note("waiters/list-swapped-before-firing: no function that reads a waiter list and fires its Deferreds was recognised; clause left to waiters/swap-order-run")
 
 
 def check_retry_structure(ctx, m, ex):
@@ -883,11 +893,27 @@ def check_retry_structure(ctx, m, ex):
         return
     lc = later[0]
     delay = resolve(lc.args[0], f)
-    ok = isinstance(delay, ast.Call) and call_name(delay) == f"{core}.timeoutForAttempt"
-    if not ok and not isinstance(delay, ast.Call):
-        ctx.note("retry/schedules-policy-delay: delay expression not resolved to a call; clause left to retry/factory-run")
+
+    def from_policy(e, fn, recv, depth=0):
+        """True: the value is the retry policy's answer; False: positively something else; None: not understood."""
+        if isinstance(e, ast.Call) and call_name(e) == f"{recv}.timeoutForAttempt":
+            return True
+        if isinstance(e, ast.Call) and isinstance(e.func, ast.Attribute) and src(e.func.value) == recv and depth < 3:
+            meth = nm.find(f"_Core.{e.func.attr}")
+            if isinstance(meth, ast.FunctionDef):
+                rets = [r for r in ast.walk(meth) if isinstance(r, ast.Return) and r.value is not None]
+                res = [from_policy(resolve(r.value, meth), meth, meth.args.args[0].arg, depth + 1) for r in rets]
+                if res and all(x is True for x in res):
+                    return True
+                return None
+        if isinstance(e, (ast.Constant, ast.BinOp, ast.UnaryOp)) and not any(isinstance(x, ast.Call) for x in ast.walk(e)):
+            return False
+        return None
+    verdict = from_policy(delay, f, core)
+    if verdict is None:
+        ctx.note(f"retry/schedules-policy-delay: the delay expression {src(delay)[:50]} is not understood (unknown callee); clause left to retry/factory-run")
     else:
-        ctx.check(ok, "retry/schedules-policy-delay", q + " | delay", f"the delay passed to callLater is {src(delay)[:60]}, not the retry policy's answer")
+        ctx.check(verdict, "retry/schedules-policy-delay", q + " | delay", f"the delay passed to callLater is {src(delay)[:60]}, not the retry policy's answer")
     ctx.check(src(lc.args[1]) == f"{c}.{ex.timer[0]}", "retry/schedules-policy-delay", q + " | callback", "the delayed call is not the reconnect input of the machine")
     rets = [r for r in ast.walk(f) if isinstance(r, ast.Return) and r.value is not None]
     if len(rets) == 1:
@@ -898,30 +924,30 @@ def check_retry_structure(ctx, m, ex):
 
 def check_limit_domain(ctx, m, ex):
     """The failure limit is inspected only through `is None`, comparisons with constants and `- 1`: {None, <= 1, > 1} are all its classes."""
+    from sa.props._lib_j import taint
     nm = _norm_cs(ctx)
-    t = next((t for t in m.trans.values() if t["body"] is not None and t["inp"] in ex.eb and t["src"] == ex.att_state), None)
-    mk = nm.find("makeMachine")
-    f = next((n for n in ast.walk(mk) if isinstance(n, ast.FunctionDef) and t is not None and n.name == t["body"].name), None) if mk is not None else None
-    q = QM + "." + (t["body"].name if t else "?")
-    ok = None
-    if isinstance(f, ast.FunctionDef):
+    ok, where = None, "?"
+    for label, f, recv in _core_and_machine_functions(nm):
         for lp in ast.walk(f):
             if isinstance(lp, ast.For) and isinstance(lp.target, ast.Tuple) and len(lp.target.elts) == 2 and isinstance(lp.target.elts[1], ast.Name) \
-                    and "awaitingConnected" in src(lp.iter):
-                rem = lp.target.elts[1].id
-                ok = True
+                    and src(lp.iter) == f"{recv}.awaitingConnected" and any(isinstance(x, (ast.Compare, ast.BinOp)) for x in ast.walk(lp)):
+                tainted = taint(f, [lp.target.elts[1].id])
+                where, ok = label, True
                 for n in ast.walk(lp):
-                    if isinstance(n, ast.Name) and n.id == rem and isinstance(n.ctx, ast.Load):
+                    if isinstance(n, ast.Name) and n.id in tainted and isinstance(n.ctx, ast.Load):
                         par = getattr(n, "_parent", None)
                         if isinstance(par, ast.Compare):
                             others = [x for x in [par.left] + par.comparators if x is not n]
                             ok = ok and all(isinstance(x, ast.Constant) for x in others)
                         elif isinstance(par, ast.BinOp):
                             ok = ok and isinstance(par.op, ast.Sub) and isinstance(par.right, ast.Constant)
-                        elif isinstance(par, (ast.Tuple, ast.Assign, ast.IfExp)):
+                        elif isinstance(par, (ast.Tuple, ast.Assign, ast.AnnAssign, ast.IfExp, ast.If, ast.UnaryOp, ast.BoolOp, ast.Return)):
+                            pass
+                        elif isinstance(par, ast.Call) and isinstance(par.func, ast.Attribute) and par.func.attr == "append":
                             pass
                         else:
                             ok = False
+    q = "twisted.application._client_service." + where
     if ok:
         ctx.ok("waiters/failure-limit-domain", q, "the limit is only compared with constants / None and decremented: the classes {None, <= 1, > 1} (sampled as None, 0, 1, 2, 3) are its whole domain")
     else:
